@@ -28,7 +28,7 @@ def tweak_resize(rng, w, i):
 
 # judged on the implementation's outcome alone (the run must return): the model would have to materialise gigabytes of
 # padding zeros, or is quadratic in the number of table entries (list-based maps) where the real code uses hash maps
-NOT_MODELLED = ("enormous declared length", "many segments in one piece")
+NOT_MODELLED = ("enormous declared length", "many segments in one piece", "metadata fault")
 
 def run_worlds(worlds, jobs=None):
     jobs = jobs or C.NCPU
@@ -94,6 +94,38 @@ def fault_worlds(tier, seed):
                 if a != b:
                     v = copy.copy(w); v.faults = sorted([a, b]); v.tag = "faults@%d,%d" % (a, b)
                     out.append(v)
+    return out
+
+def resize_fault_worlds(tier, seed):
+    """C14 under I/O failures: worlds with the resize flag, every one of the first operations (argument checks, both
+    passes of the pre-flight) failing, one at a time"""
+    import copy
+    out = []
+    for i in range(16 if tier == "quick" else 160):
+        rng = Rng(seed, "c14-fault", i)
+        w = W.gen_world_c14(rng)
+        w.resize = True; w.threads = 1
+        base = W.execute(w)
+        n, _ = count_ops(base)
+        for k in range(min(n, 14 if tier == "quick" else 40)):
+            v = copy.copy(w); v.faults = [k]; v.tag = "resize fault@%d" % k
+            out.append(v)
+    return out
+
+def meta_fault_worlds(tier, seed):
+    """C13/C16: the k-th metadata query that is not part of the operation log (a directory-walk entry that vanished
+    or became unreadable, the metadata of an opened export image) fails; the model does not number those queries, so
+    these runs are judged on the outcome alone: the run returns, it does not panic"""
+    import copy
+    out = []
+    for i in range(6 if tier == "quick" else 60):
+        rng = Rng(seed, "meta-fault", i)
+        w = W.gen_small_world(rng) if i % 2 else W.gen_world(rng)
+        w.threads = 1
+        w.resize = i % 3 == 0
+        for k in range(12 if tier == "quick" else 40):
+            v = copy.copy(w); v.meta_faults = [k]; v.tag = "metadata fault"; v.has_truth = False
+            out.append(v)
     return out
 
 def partial_write_worlds(tier, seed, stream="partial"):
@@ -227,7 +259,7 @@ def compare_groups(cases):
                     c.result.world.tag += " (equal after re-running to idle)"
     return cases
 
-EXTRA_MODULES = {"C14": ["TB.Props.C14run"], "C03": ["TB.Props.C03frame"], "C17": ["TB.Props.C17run"], "C01": ["TB.Props.C01bytes"], "C11": ["TB.Props.C01bytes", "TB.Props.C04h"], "C02": ["TB.Props.C02run"], "C16": ["TB.Props.C16run", "TB.Props.C16total"], "C04": ["TB.Props.C04a", "TB.Props.C04c", "TB.Props.C04h"], "C15": ["TB.Props.C04a", "TB.Props.C04c"]}
+EXTRA_MODULES = {"C14": ["TB.Props.C14run"], "C03": ["TB.Props.C03frame"], "C17": ["TB.Props.C17run"], "C01": ["TB.Props.C01bytes"], "C11": ["TB.Props.C01bytes", "TB.Props.C04h", "TB.Props.C04hist"], "C02": ["TB.Props.C02run"], "C16": ["TB.Props.C16run", "TB.Props.C16total"], "C04": ["TB.Props.C04a", "TB.Props.C04c", "TB.Props.C04h", "TB.Props.C04hist"], "C15": ["TB.Props.C04a", "TB.Props.C04c"]}
 
 PROPS = {
     "C01": dict(module="TB.Props.C01", theorems=["C01_write_sound", "C01_gate", "C01_writer_cursor", "C01_run"], clauses=["c01-"],
@@ -237,7 +269,7 @@ PROPS = {
                 worlds=lambda t, s: [W.gen_world_many_candidates(Rng(s, "c02-many", k), k) for k in (2, 260)]
                                     + [W.gen_world_two_devices(Rng(s, "c02-dev", i)) for i in range(8 if t == "quick" else 80)]
                                     + worlds_default(t, s, "c02", 400, 8000, tweak_threads)),
-    "C03": dict(module="TB.Props.C03", theorems=["C03_confined", "C03_readonly", "C03_plain"], clauses=["c03-"], worlds=lambda t, s: worlds_default(t, s, "c03", 300, 6000, tweak_threads),
+    "C03": dict(module="TB.Props.C03", theorems=["C03_confined", "C03_readonly", "C03_plain"], clauses=["c03-"], worlds=lambda t, s: worlds_default(t, s, "c03", 300, 6000, tweak_threads) + fault_worlds(t, s),
                 unit_stream=lambda t, s: unit.load_stream("quick", s)[: 3000 if t == "quick" else 8000]),
     "C04": dict(module="TB.Props.C04", theorems=["C04_export_first", "C04_skip", "C04b_untouched"], clauses=["c04-"], worlds=lambda t, s: worlds_default(t, s, "c04", 300, 6000, tweak_threads)),
     "C12": dict(module="TB.Props.C12", theorems=["C12_path", "C12_only_run", "C12_len", "C12_disjoint"], clauses=["c12-"],
@@ -245,7 +277,8 @@ PROPS = {
                                     + partial_write_worlds(t, s, "c12-partial")),
     "C14": dict(module="TB.Props.C14", theorems=["C14_abort", "C14_pass2_ops", "C14_noflag"], clauses=["c14-"],
                 worlds=lambda t, s: [W.gen_world_dup_path_resize(Rng(s, "c14-dup", i)) for i in range(40 if t == "quick" else 400)]
-                                    + [W.gen_world_c14(Rng(s, "c14", i)) for i in range(400 if t == "quick" else 8000)]),
+                                    + [W.gen_world_c14(Rng(s, "c14", i)) for i in range(400 if t == "quick" else 8000)]
+                                    + resize_fault_worlds(t, s)),
     "C15": dict(module="TB.Props.C15", theorems=["C15_sum", "C15_run", "C15_dedup"], clauses=["c15-"], worlds=lambda t, s: worlds_default(t, s, "c15", 300, 6000, tweak_threads),
                 runner=lambda ws: run_with_cli(ws, 60 if len(ws) <= 1000 else 600), with_bin=True),
     "C16": dict(module="TB.Props.C16", theorems=["C16_empty", "C16_validate", "C16_piece_total_partial"], clauses=["c16-", "c03-"],
@@ -254,7 +287,7 @@ PROPS = {
                                     + [W.gen_world_sparse_candidate(Rng(s, "c16-sparse", i)) for i in range(6)]
                                     + [W.gen_world_c16(Rng(s, "c16", i), i) for i in range(400 if t == "quick" else 8000)],
                 runner=lambda ws: run_with_cli(ws, 66 if len(ws) <= 1000 else 660), with_bin=True),
-    "C13": dict(module="TB.Props.C13", theorems=["C13_all_accounted", "C13_local", "C13_found_all_ok"], clauses=["c13-", "c01-", "c16-"], worlds=lambda t, s: fault_worlds(t, s) + partial_write_worlds(t, s, "c13-partial")),
+    "C13": dict(module="TB.Props.C13", theorems=["C13_all_accounted", "C13_local", "C13_found_all_ok"], clauses=["c13-", "c01-", "c16-"], worlds=lambda t, s: fault_worlds(t, s) + partial_write_worlds(t, s, "c13-partial") + meta_fault_worlds(t, s)),
     "C11": dict(module="TB.Props.C11", theorems=["C11_replay", "C11_prefix_sound"], clauses=["c11-", "c02-", "c01-"], worlds=crash_worlds, runner=run_crash_cases),
     "C17": dict(module="TB.Props.C17", theorems=["C17_dedup_perm"], clauses=["c17-", "c01-", "c02-", "c03-", "c04-", "c12-"], worlds=meta_worlds, post=compare_groups),
 }
@@ -271,7 +304,7 @@ def world_summary(r):
                           "files": [[f.length, "/".join(x.decode("utf-8", "replace") for x in f.path)] for f in g.files]} for g in w.gts],
             "files": {"/".join(x.decode("utf-8", "replace") for x in p): len(v[0]) for p, v in sorted(w.files.items())},
             "scan": ["/".join(x.decode("utf-8", "replace") for x in s) for s in w.scan], "resize": w.resize, "threads": w.threads,
-            "faults": w.faults, "crash": w.crash, "tag": w.tag}
+            "faults": w.faults, "meta_faults": getattr(w, "meta_faults", []), "sched_fs": getattr(w, "sched_fs", None), "crash": w.crash, "tag": w.tag}
 
 def run(pid, tier, seed, replay=None, props=None):
     cfg = (props or PROPS)[pid]
